@@ -175,7 +175,7 @@ pub fn gen_rules_world(seed: u64) -> SupplyTrace {
         subdir: String::new(),
     };
     labels.push("RULES".into());
-    SupplyTrace { keys, root, caller: vec![(0, 0)], clock: vec![(now, 0)], hash_seeds: vec![r.next()], arrivals: vec![r.next()], file_faults: vec![], labels, work_files: vec![], caller_json_alias: vec![], step_name: None, rel_link_dir: false, read_faults: None }
+    SupplyTrace { keys, root, caller: vec![(0, 0)], clock: vec![(now, 0)], hash_seeds: vec![r.next()], arrivals: vec![r.next()], file_faults: vec![], labels, work_files: vec![], caller_json_alias: vec![], step_name: None, rel_link_dir: false, read_faults: None, fixed_mtime: false, link_dir_style: 0, work_links: vec![], tz: None }
 }
 
 pub fn run_c03(_tier: Tier, seed: u64, index: u64, scratch: &Scratch, rec: &mut RunRecord) {
